@@ -450,11 +450,12 @@ pub fn gen_top_op<P: Pad>(r: &mut RandomDir, w: &mut World<P>) -> Option<Value> 
         184..=188 if r.cfg.weak => pick(rng, &wroots).map(|o| json!({"e": "call", "op": "upgrade", "o": o})),
         189..=190 if r.cfg.weak => pick(rng, &wroots).map(|o| json!({"e": "call", "op": "clonew", "o": o})),
         191..=194 if r.cfg.weak => pick(rng, &wroots).map(|o| json!({"e": "call", "op": "dropw", "o": o})),
-        195..=197 if r.cfg.weak && w.nw > 0 => {
+        195..=196 if r.cfg.weak && w.nw > 0 => {
             let a = pick(rng, &roots)?;
             let o = pick(rng, &wroots)?;
             Some(json!({"e": "call", "op": "setw", "a": a, "k": "w", "i": rng.gen_range(1..=w.nw), "o": o}))
         }
+        197 if r.cfg.weak => Some(json!({"e": "call", "op": "wnew"})),
         198 if r.cfg.weak && w.nw > 0 => pick(rng, &roots).map(|a| json!({"e": "call", "op": "clearw", "a": a, "k": "w", "i": rng.gen_range(1..=w.nw)})),
         199 if r.cfg.weak && w.nw > 0 => pick(rng, &roots).map(|a| json!({"e": "call", "op": "upgradef", "a": a, "k": "w", "i": rng.gen_range(1..=w.nw)})),
         _ => pick(rng, &moved).map(|o| json!({"e": "call", "op": "dropval", "o": o})),
